@@ -48,6 +48,8 @@ type Decl struct {
 	Ptr    bool     `json:"ptr,omitempty"`    // pointer receiver
 	Group  []*Decl  `json:"group,omitempty"`  // members of a grouped type declaration
 	Fields []string `json:"fields,omitempty"` // extra struct field lines
+	// LineBefore: "file:line" of a //line directive written (with an empty line after it) in front of the declaration
+	LineBefore string `json:"line_before,omitempty"`
 }
 
 // SrcFile is one Go source file of a package.
@@ -328,6 +330,9 @@ func (m *ModuleSpec) FileSource(pi int, f *SrcFile, first bool) string {
 	}
 	for _, d := range f.Decls {
 		sb.WriteString("\n")
+		if d.LineBefore != "" {
+			sb.WriteString("//line " + d.LineBefore + "\n\n")
+		}
 		sb.WriteString(d.Source())
 	}
 	return sb.String()
